@@ -1,3 +1,4 @@
+import Hcl.Proofs.LexLiterals
 import Hcl.Model.Parser
 import Hcl.Spec.Grammar
 import Hcl.Generated
@@ -70,3 +71,34 @@ def preambleValue (defs : List (String × String)) (name : String) : Option Nat 
 /-- **the predefined Y86 names have their CS:APP values** (preamble text extracted from program.rs on this run) -/
 theorem C11_preamble_values :
     Spec.csappValues.all (fun p => preambleValue Generated.preambleConsts p.1 == some p.2) = true := by decide
+
+/-! ### literals -/
+
+/-- **binary literals**: `0b` followed by `n` binary digits, `1 ≤ n ≤ 128`, is one constant, `n` bits wide, whose value
+    is the digits read in base 2 (most significant first) -/
+theorem C11_binary (bits : List Bool) (hne : bits ≠ []) (hlen : bits.length ≤ 128) :
+    lex asciiCls ('0' :: 'b' :: bits.map bitChar) =
+      [.tok 0 (.Constant ⟨digitsVal 2 (bits.map bitChar), .bits bits.length⟩) (2 + bits.length)] :=
+  lex_binary bits hne hlen
+
+/-- **hexadecimal literals** (digits of either case): unsized, value = the digits in base 16; rejected over their
+    whole extent exactly when the value does not fit in 128 bits -/
+theorem C11_hex (ds : List Char) (hne : ds ≠ []) (hall : ∀ c ∈ ds, isHex c = true) :
+    lex asciiCls ('0' :: 'x' :: ds) =
+      if digitsVal 16 ds < 2 ^ 128 then [.tok 0 (.Constant ⟨digitsVal 16 ds, .unlimited⟩) (2 + ds.length)]
+      else [.err (.invalidConstant 0 (2 + ds.length))] := lex_hex ds hne hall
+
+/-- **decimal literals**: unsized, value = the digits in base 10; rejected exactly when ≥ 2^128 -/
+theorem C11_decimal (d0 d1 : Char) (ds : List Char) (h0 : isDec d0 = true) (h1 : isDec d1 = true)
+    (hall : ∀ c ∈ ds, isDec c = true) :
+    lex asciiCls (d0 :: d1 :: ds) =
+      if digitsVal 10 (d0 :: d1 :: ds) < 2 ^ 128 then
+        [.tok 0 (.Constant ⟨digitsVal 10 (d0 :: d1 :: ds), .unlimited⟩) (2 + ds.length)]
+      else [.err (.invalidConstant 0 (2 + ds.length))] := lex_decimal d0 d1 ds h0 h1 hall
+
+theorem C11_digit (d0 : Char) (h0 : isDec d0 = true) :
+    lex asciiCls [d0] = [.tok 0 (.Constant ⟨d0.toNat - 48, .unlimited⟩) 1] := lex_digit d0 h0
+
+/-- the digit values are the usual ones, in either case -/
+example : digitVal '7' = 7 ∧ digitVal 'a' = 10 ∧ digitVal 'F' = 15 ∧ digitsVal 16 "1fE".toList = 510 ∧
+    digitsVal 2 "0101".toList = 5 ∧ digitsVal 10 "340".toList = 340 := by decide
